@@ -228,7 +228,7 @@ def gen_filesink():
     bodies = fn_bodies(src)
     out = ["import RR.Model.FileSink", "",
            "/-! GENERATED by tools/extract.py from /repo/src/file_sink.rs on every run: the open flags of every mode of",
-           "both sinks, and the order of write / flush / consume inside each work(). Do not edit. -/",
+           "both sinks, the order of write / flush / consume inside each work(), and whether each I/O result is propagated with `?`. Do not edit. -/",
            "namespace RR.Gen", "open RR.FileSink", ""]
     for sink, impl_pat, lname in [("FileSink", r"^<T: Copy> FileSink<T>$", "fileSink"),
                                   ("NoCopyFileSink", r"^<T> NoCopyFileSink<T>$", "ncFileSink")]:
@@ -240,12 +240,25 @@ def gen_filesink():
             f = open_flags(m.group(1))
             out.append("def %s%s : OpenFlags := { read := %s, write := %s, append := %s, create := %s, createNew := %s, truncate := %s }"
                        % (lname, mode, *[str(f[k]).lower() for k in ["read", "write", "append", "create", "createNew", "truncate"]]))
+    def checked(body, ev):
+        """Is the Result of the I/O call propagated with `?` (consume/pop cannot fail)."""
+        if ev == "consume":
+            return True
+        pat = {"write": r"\.write_all\s*\((?:[^()]|\([^()]*\))*\)\s*(\?)?",
+               "flush": r"\.flush\s*\(\s*\)\s*(\?)?"}[ev]
+        m = re.search(pat, body)
+        return bool(m and m.group(1))
+
     work = find_fn(bodies, r"Block for FileSink<T>", "work")
     order = order_in(work, [("write", r"\.write_all\s*\("), ("flush", r"\.flush\s*\("), ("consume", r"\.consume\s*\(")])
     out.append("def fileSinkWork : List Ev := [%s]" % ", ".join("." + x for x in order))
+    out.append("def fileSinkWorkChecked : List (Ev × Bool) := [%s]"
+               % ", ".join("(.%s, %s)" % (x, str(checked(work, x)).lower()) for x in order))
     work = find_fn(bodies, r"Block for NoCopyFileSink<T>", "work")
     order = order_in(work, [("consume", r"\.pop\s*\("), ("write", r"\.write_all\s*\("), ("flush", r"\.flush\s*\(")])
     out.append("def ncFileSinkWork : List Ev := [%s]" % ", ".join("." + x for x in order))
+    out.append("def ncFileSinkWorkChecked : List (Ev × Bool) := [%s]"
+               % ", ".join("(.%s, %s)" % (x, str(checked(work, x)).lower()) for x in order))
     out += ["", "end RR.Gen", ""]
     return "FileSink.lean", "\n".join(out)
 
